@@ -4,6 +4,8 @@
 //                real cross-shard setup: helper i's right values == helper i+1's left values for many
 //                gates / indices / multi-block widths up to the offset cap; distinctness across
 //                steps, indices and offsets
+//   c06_noreuse  real multi-batch DZKP validation (many proof batches, each drawing its PRSS indices from its own
+//                reserved range) in a debug build: the implementation's own reuse detector must stay silent
 //   c06_usedset  the debug-build detectors: same (step, index, offset) drawn twice, indexed vs sequential misuse
 // (c06_pack lives in hooks/context.rs: PrssIndex128 is visible only inside crate::protocol.)
 use std::collections::HashSet;
@@ -293,5 +295,87 @@ fn verif_c06_usedset() {
             out
         },
         exec_used,
+    );
+}
+
+// ---- no reuse across proof batches: real protocol runs with the debug-build detector live ----
+
+/// MAC validator over several batches (batch size = the context's active work): every batch creates its
+/// accumulator from PRSS indices 3·offset + {0,1,2} and validates on channels 2·offset + {0,1} / offset.
+async fn mac_batches(count: usize, seed: u64) -> String {
+    use crate::{
+        ff::{Fp32BitPrime, U128Conversions},
+        protocol::context::{UpgradableContext, UpgradedContext, Validator, upgrade::Upgradable},
+        secret_sharing::replicated::{ReplicatedSecretSharing, semi_honest::AdditiveShare as Replicated},
+        seq_join::SeqJoin,
+    };
+    type F = Fp32BitPrime;
+    let world = TestWorld::new_with(TestWorldConfig::default().with_seed(seed));
+    let mut rng = Rng(seed);
+    let p = u128::from(<F as crate::ff::PrimeField>::PRIME);
+    let mut per_helper: [Vec<Replicated<F>>; 3] = [vec![], vec![], vec![]];
+    for _ in 0..count {
+        let s: Vec<F> = (0..3).map(|_| F::truncate_from(rng.next_u128() % p)).collect();
+        for h in 0..3 {
+            per_helper[h].push(Replicated::new(s[h], s[(h + 1) % 3]));
+        }
+    }
+    let futs = world.malicious_contexts().into_iter().zip(per_helper).map(|(ctx, input)| async move {
+        let ctx = ctx.set_total_records(count);
+        let v = ctx.validator::<F>();
+        let m_ctx = v.context();
+        m_ctx
+            .try_join(input.into_iter().enumerate().map(|(i, a)| {
+                let ctx = m_ctx.clone();
+                async move {
+                    let record_id = RecordId::from(i);
+                    let _m = a.upgrade(ctx.clone(), record_id).await?;
+                    ctx.validate_record(record_id).await
+                }
+            }))
+            .await
+            .map(|_| ())
+    });
+    let rs = futures::future::join_all(futs).await;
+    if rs.iter().all(Result::is_ok) { "ok".into() } else { format!("err:{}", canon(&format!("{rs:?}"))) }
+}
+
+fn exec_noreuse(req: &str) -> String {
+    let t: Vec<&str> = req.split(' ').collect();
+    if t[1] == "mac" {
+        let count: usize = t[2].parse().unwrap();
+        let seed: u64 = t[3].parse().unwrap();
+        return block_on_timeout(30, mac_batches(count, seed)).unwrap_or_else(|e| e);
+    }
+    // c06.noreuse dzkp <ty> <count> <records per batch> <seed>  ==> the C03 executor on the validate_record API
+    let inner = format!("c03.validate {} {} {} {} {} -", t[2], t[3], t[4], t[5], t[6]);
+    let r = super::c03::exec_validate(&inner);
+    if r == "ok,ok,ok" { "ok".into() } else { r }
+}
+
+#[test]
+fn verif_c06_noreuse() {
+    run_suite(
+        "c06_noreuse",
+        |rng, thorough| {
+            let mut out = vec![];
+            // (type, records, records per batch): 1 .. 64 proof batches, one or two gates per batch
+            let mut cfgs = vec![
+                ("record", "b1", 64usize, 1usize), ("record", "b1", 33, 2), ("record", "ba8", 40, 4), ("record2", "ba3", 24, 2),
+                ("record", "ba64", 17, 1), ("record2", "b1", 50, 8), ("record", "ba256", 12, 1), ("record", "ba16", 128, 16),
+            ];
+            if thorough {
+                cfgs.extend_from_slice(&[("record", "b1", 256, 1), ("record2", "ba8", 200, 2), ("record", "ba32", 300, 4), ("record", "ba5", 129, 1)]);
+            }
+            for (api, ty, n, per) in cfgs {
+                out.push(format!("c06.noreuse dzkp {api} {ty} {n} {per} {}", rng.below(1 << 30)));
+            }
+            // MAC validator: 1 record, a few batches, many batches
+            for n in if thorough { vec![1usize, 2, 31, 32, 33, 100, 257, 1000] } else { vec![1usize, 33, 100, 257] } {
+                out.push(format!("c06.noreuse mac {n} {}", rng.below(1 << 30)));
+            }
+            out
+        },
+        exec_noreuse,
     );
 }
